@@ -288,7 +288,7 @@ func (ex *Exec) observe(prefix string, v Value, fr *Frame) {
 }
 
 func (ex *Exec) flatten(prefix string, v Value, t types.Type, depth int, emit func(name, conc string, t *Term)) {
-	if depth > 12 {
+	if depth > 40 {
 		emit(prefix, "<deep>", nil)
 		return
 	}
@@ -475,7 +475,7 @@ func (ex *Exec) keyString(k Value) (string, bool) {
 
 // deepEqual is structural equality as one term: flattenings are equal (NaN equals NaN, nil slice equals empty).
 func (ex *Exec) deepEqual(a, b Value, depth int) *Term {
-	if depth > 12 {
+	if depth > 40 {
 		panic(unsupported{"verifDeepEqual too deep"})
 	}
 	switch x := a.(type) {
